@@ -541,6 +541,30 @@ structure Stmt where
   upper : Option Time := none
   filters : List (Nat × Bytes) := []   -- (operation, binding)
 
+def filterOpOf : Nat → FilterOp
+  | 1 => .latest
+  | 2 => .isImmutable
+  | 3 => .isTemporal
+  | _ => .unknown
+
+/-- `organizeFilterOptionsByClause`: every FILTER goes to the clauses that hold its binding, as a storage-level
+    filter on the position the binding occupies (predicate before object); a binding no clause holds, a second
+    filter on one clause and a binding in a position no filter applies to are errors. -/
+def organizeFilters (filters : List (Nat × Bytes)) (cs : List Clause) : Except QErr (List (Clause × FilterOpts)) :=
+  filters.foldlM (fun acc f =>
+    let holders := cs.filter fun c => c.bindings.contains f.2
+    if holders.isEmpty || filterOpOf f.1 == .unknown then .error .other else
+    -- (the engine keys the filters by clause pointer: two clauses written identically are two holders of this
+    -- filter, not a clause with two filters; the model keys by value)
+    holders.foldlM (fun out c =>
+      if acc.any (fun p => p.1 == c) then .error .other
+      else if out.any (fun p => p.1 == c) then .ok out
+      else if f.2 ≠ [] && (c.pBinding == f.2 || c.pAlias == f.2) then .ok (out ++ [(c, ⟨filterOpOf f.1, .predicate⟩)])
+      else if f.2 ≠ [] && (c.oBinding == f.2 || c.oAlias == f.2) then .ok (out ++ [(c, ⟨filterOpOf f.1, .object⟩)])
+      else .error .other) acc) []
+
+def filterForOf (fs : List (Clause × FilterOpts)) (c : Clause) : Option FilterOpts := (fs.find? (·.1 == c)).map (·.2)
+
 def Stmt.outputBindings (st : Stmt) : List Bytes := (st.projs.map Proj.out).filter (· ≠ [])
 
 /-- One alias of the plain projection: the binding is read from the row as the pattern produced it (`r`), the
